@@ -8,6 +8,7 @@ rank function and Ordering values.  It stops at the first value-dependent operat
 from .core import callee_of, callee_names
 
 ORD = {'Less': -1, 'Equal': 0, 'Greater': 1}
+PURE_VIEWS = ('as_bytes', 'as_ref', 'as_slice', 'as_str', 'deref', 'borrow', 'as_deref')
 ORD_NAME = {-1: 'Less', 0: 'Equal', 1: 'Greater'}
 
 
@@ -92,8 +93,10 @@ def walk(B, vs, vo, rank_fn=None, ranks=None, max_steps=400, arg_map=None):
                     val = ('tuple', vals)
                 elif rv['ak'] == 'adt' and rv.get('adt') == 'core::cmp::Ordering':
                     val = ('ord', ORD[rv['var']])
-                elif rv['ak'] == 'adt' and not rv.get('ops') and 'vi' in rv:
-                    val = ('enumc', rv.get('adt'), rv['vi'])       # a fieldless variant of some enum (a rank written as an enum)
+                elif rv['ak'] == 'adt' and 'vi' in rv:
+                    # a variant literal of some enum: its kind is known even when its payload is not (a rank written as an enum;
+                    # Some(view) / None answered by a helper that looks at the variant only)
+                    val = ('enumc', rv.get('adt'), rv['vi'])
             if not pl.get('p'):
                 if pl['l'] == 0:
                     if val is not None and val[0] == 'ord':
@@ -160,6 +163,9 @@ def walk(B, vs, vo, rank_fn=None, ranks=None, max_steps=400, arg_map=None):
                 val = ('ord', (a_ > b_) - (a_ < b_))
                 if a_ == b_:
                     rank_eq[0] = True
+            elif (g or '').rsplit('::', 1)[-1] in PURE_VIEWS and len(args) == 1 and isinstance(t.get('t'), int):
+                # a view of the value (as_bytes, as_ref, deref ...): nothing is compared yet; the result is opaque
+                val = None
             else:
                 names = [n for n in (g, r) if n]
                 return {'kind': 'compares', 'bb': bb, 'calls': names, 'args': av}
